@@ -38,6 +38,8 @@ type gen struct {
 	noUnique bool
 	// noNUL: no NUL bytes in strings (they cannot travel in a PostgreSQL protocol message)
 	noNUL bool
+	// noChecks: no CHECK constraints
+	noChecks bool
 	// skipFail: kinds of failing statements this front-end does not reject
 	skipFail map[string]bool
 }
@@ -191,6 +193,15 @@ func (g *gen) genTable(name string, allowIndexes bool) *tdef {
 	for i := 1; i <= nf; i++ {
 		d.cols = append(d.cols, g.newColumn(fmt.Sprintf("f%d", i), g.colType(), g.intn(0, 3, "notNull") == 0))
 	}
+	if !g.noChecks && g.intn(0, 9, "checkConstraint") < 4 {
+		// q1 INTEGER NOT NULL with CONSTRAINT c_<table> CHECK (q1 >= 0)
+		c := &sqlgen.Column{Name: "q1", Type: sqlgen.TInt, NotNull: true}
+		for _, v := range []int64{0, 1, 2, 5, 10, 50} {
+			c.Pool = append(c.Pool, sqlgen.Int(v))
+		}
+		d.cols = append(d.cols, c)
+		d.checks = append(d.checks, check{name: "c_" + name, col: "q1", min: 0})
+	}
 	if allowIndexes && g.intn(0, 9, "plainIndex") < 4 {
 		typ := rapid.SampledFrom([]sqlgen.Type{sqlgen.TInt, sqlgen.TVarchar}).Draw(g.rt, "xType")
 		d.cols = append(d.cols, g.newColumn("x1", typ, false))
@@ -202,6 +213,18 @@ func (g *gen) genTable(name string, allowIndexes bool) *tdef {
 	}
 	return d
 }
+
+// checkedValue draws a value for a column that has (or had) a CHECK
+// constraint: one that satisfies it while the constraint is there, often a
+// violating one once the transaction has dropped it.
+func (g *gen) checkedValue(d *tdef, c *sqlgen.Column) sqlgen.Value {
+	if d.checkOn(c.Name) == nil && g.chance(2, "belowCheck") {
+		return sqlgen.Int(int64(-g.intn(1, 60, "negative")))
+	}
+	return c.Pool[g.intn(0, len(c.Pool)-1, "checkedPool")]
+}
+
+func isChecked(c *sqlgen.Column) bool { return c.Name == "q1" }
 
 func (g *gen) freshUnique() sqlgen.Value {
 	g.useq++
@@ -409,6 +432,10 @@ func (g *gen) assigns(d *tdef, ok func(c *sqlgen.Column) bool) []assign {
 	perm := rapid.Permutation(cands).Draw(g.rt, "setPerm")
 	var out []assign
 	for _, c := range perm[:n] {
+		if isChecked(c) {
+			out = append(out, assign{c: c, v: g.checkedValue(d, c)})
+			continue
+		}
 		if c.Type == sqlgen.TInt && c.NotNull && g.chance(2, "incr") {
 			out = append(out, assign{c: c, incr: rapid.SampledFrom([]int64{1, -1, 10}).Draw(g.rt, "incrBy")})
 			continue
@@ -493,6 +520,10 @@ func (g *gen) fillRow(d *tdef, cols []*sqlgen.Column, r row) {
 		}
 		if u := d.uniqueCol(); u != nil && u.Name == c.Name {
 			r[c.Name] = g.freshUnique()
+			continue
+		}
+		if isChecked(c) {
+			r[c.Name] = g.checkedValue(d, c)
 			continue
 		}
 		if v := g.value(c); !v.Null {
@@ -778,14 +809,25 @@ func (g *gen) dml(s *txstate) *stmt {
 // ---- DDL
 
 func (g *gen) ddl(s *txstate) *stmt {
-	switch rapid.SampledFrom([]string{"create-table", "create-table", "create-index", "add-column"}).Draw(g.rt, "ddlKind") {
+	kinds := []string{"create-table", "create-table", "create-index", "add-column"}
+	if dropable := s.tables(func(t *tstate) bool { return !s.created[t.def.name] && len(t.def.checks) > 0 }); len(dropable) > 0 {
+		kinds = append(kinds, "drop-constraint", "drop-constraint", "drop-constraint")
+	}
+	switch rapid.SampledFrom(kinds).Draw(g.rt, "ddlKind") {
+	case "drop-constraint":
+		t := g.pick(s.tables(func(t *tstate) bool { return !s.created[t.def.name] && len(t.def.checks) > 0 }))
+		name := t.def.checks[0].name
+		t.def = t.def.with(func(n *tdef) { n.dropCheck(name) })
+		s.altered[t.def.name] = true
+		s.ddl = append(s.ddl, ddlop{kind: "drop-constraint", table: t.def.name, name: name})
+		return &stmt{sql: fmt.Sprintf("ALTER TABLE %s DROP CONSTRAINT %s", t.def.name, name), label: "drop-constraint", wrote: true}
 	case "create-table":
 		g.tseq++
 		d := g.genTable(fmt.Sprintf("%sn%d", g.prefix, g.tseq), false)
 		s.view.add(d)
 		s.created[d.name] = true
 		s.ddl = append(s.ddl, ddlop{kind: "create-table", table: d.name, def: d})
-		return &stmt{sql: d.table().CreateSQL(), label: "create-table", wrote: true}
+		return &stmt{sql: d.createSQL(), label: "create-table", wrote: true}
 	case "create-index":
 		t := g.pick(s.tables(func(t *tstate) bool { return !s.created[t.def.name] && len(t.def.idx) < 2 }))
 		if t == nil {
@@ -867,6 +909,32 @@ func (g *gen) savepointStmt(s *txstate) *stmt {
 
 // ---- statements that must fail
 
+// checkViolation is a statement that breaks a CHECK constraint the
+// transaction still sees (nil when it sees none).
+func (g *gen) checkViolation(s *txstate) *stmt {
+	t := g.pick(s.tables(func(t *tstate) bool { return !s.created[t.def.name] && len(t.def.checks) > 0 }))
+	if t == nil || s.ro {
+		return nil
+	}
+	d := t.def
+	ck := d.checks[0]
+	bad := sqlgen.Int(ck.min - int64(g.intn(1, 60, "below")))
+	if len(t.rows) > 0 && g.chance(3, "viaUpdate") {
+		return &stmt{sql: fmt.Sprintf("UPDATE %s SET %s = %s", d.name, ck.col, bad.SQL()), label: "fail-check-constraint", fails: true}
+	}
+	cols := g.insertCols(d, true)
+	r := g.keyValues(d)
+	for try := 0; try < 8 && !d.autoInc; try++ {
+		if _, exists := t.rows[d.pkKey(r)]; !exists {
+			break
+		}
+		r = g.keyValues(d)
+	}
+	g.fillRow(d, cols, r)
+	r[ck.col] = bad
+	return &stmt{sql: fmt.Sprintf("INSERT INTO %s (%s) VALUES %s", d.name, colList(cols), rowsSQL(cols, []row{r}, d)), label: "fail-check-constraint", fails: true}
+}
+
 // failing draws a statement the engine must reject whatever rows exist.
 // foreign are names of tables this transaction cannot see (created by
 // transactions that are still open or that committed after its snapshot).
@@ -882,6 +950,9 @@ func (g *gen) failing(s *txstate, foreign []string) *stmt {
 		}
 	}
 
+	if x := g.checkViolation(s); x != nil && g.chance(3, "preferCheckViolation") {
+		return x
+	}
 	scannable := s.tables(s.scannable)
 	t := g.pick(scannable)
 	if s.ro {
